@@ -243,38 +243,50 @@ class Engine(object):
         P.assume(goal)
 
     def prove_spec(self, P, name, src, sctx, kind):
-        """Obligation for a contract expression.  A top-level forall(...) is skolemised (fresh constants): facts the
-        models add about sub-terms (quotient lemmas, pow10 laws) then speak about the very constants of the goal."""
+        """Obligation for a contract expression, then ASSUME the expression on P.
+        A top-level forall(...) / implies(...) is proved in skolemised form on a scratch copy of the path (fresh constants:
+        facts the models add about sub-terms - quotient lemmas, pow10 laws - then speak about the very constants of the goal);
+        what is assumed afterwards on P is the original, still quantified, formula."""
         node = self.parse(src) if isinstance(src, str) else src
-        if (isinstance(node, ast.Call) and isinstance(node.func, ast.Name) and node.func.id == "forall"
-                and node.args and isinstance(node.args[0], ast.Lambda)):
+        if self._is_spec_call(node, "forall") or self._is_spec_call(node, "implies"):
+            self._prove_skolem(P.clone(), name, node, sctx, kind)
+            for (p, v) in self.ev(node, P, sctx):
+                P.assume(self.truth(v, P))
+            return
+        for (p, v) in self.ev(node, P, sctx):
+            self.oblige(P, name, self.truth(v, P), kind)
+
+    @staticmethod
+    def _is_spec_call(node, fname):
+        return (isinstance(node, ast.Call) and isinstance(node.func, ast.Name) and node.func.id == fname and node.args
+                and (fname != "forall" or isinstance(node.args[0], ast.Lambda)) and (fname != "implies" or len(node.args) == 2))
+
+    def _prove_skolem(self, Q, name, node, sctx, kind):
+        if self._is_spec_call(node, "forall"):
             lam = node.args[0]
             kinds = [a.value for a in node.args[1:]]
             names = [a.arg for a in lam.args.args]
             while len(kinds) < len(names):
                 kinds.append("int")
             bound = [self.sym("sk_" + n, k) for n, k in zip(names, kinds)]
-            fr = self.new_frame(P, dict(zip(names, bound)))
-            return self.prove_spec(P, name, lam.body, sctx.child(fr), kind)
-        if (isinstance(node, ast.Call) and isinstance(node.func, ast.Name) and node.func.id == "implies"
-                and len(node.args) == 2):
-            res = self.ev(node.args[0], P, sctx)
+            fr = self.new_frame(Q, dict(zip(names, bound)))
+            return self._prove_skolem(Q, name, lam.body, sctx.child(fr), kind)
+        if self._is_spec_call(node, "implies"):
+            res = self.ev(node.args[0], Q, sctx)
             if len(res) == 1:
-                hyp = self.truth(res[0][1], P)
+                hyp = self.truth(res[0][1], Q)
                 if z3.is_false(z3.simplify(hyp)):
-                    self.oblige(P, name, z3.BoolVal(True), kind)
+                    self.oblige(Q, name, z3.BoolVal(True), kind)
                     return
-                Q = P.clone()
                 Q.assume(hyp)
-                before = len(self.obligations)
-                self.prove_spec(Q, name, node.args[1], sctx, kind)
-                # facts established under the hypothesis are assumed on P only in guarded form
-                for ob in self.obligations[before:]:
-                    if not z3.is_true(ob.goal):
-                        P.assume(z3.Implies(hyp, ob.goal))
-                return
-        for (p, v) in self.ev(node, P, sctx):
-            self.oblige(P, name, self.truth(v, P), kind)
+                return self._prove_skolem(Q, name, node.args[1], sctx, kind)
+        if isinstance(node, ast.BoolOp) and isinstance(node.op, ast.And) and len(node.values) > 1:
+            # a conjunction is proved conjunct by conjunct (each later one may use the earlier ones)
+            for k, sub in enumerate(node.values):
+                self._prove_skolem(Q, "%s.%d" % (name, k) if k else name, sub, sctx, kind)
+            return
+        for (p, v) in self.ev(node, Q, sctx):
+            self.oblige(Q, name, self.truth(v, Q), kind)
 
     def ghost_index(self, P, lst, key, name):
         """Ghost inverse index of an INJECTIVE list: after proving that the elements of lst are pairwise distinct,
@@ -437,6 +449,17 @@ class Engine(object):
 
     def l_get(self, P, lst, idx):
         return self.wrap(z3.Select(self.l_elems(P, lst), idx), lst.ekind)
+
+    def l_store(self, P, lst, idx, val):
+        """lst[idx] = val on an SMT list.  The new row is a FRESH array constant tied to the old row by pointwise
+        axioms (new[idx] == val, new[j] == old[j] elsewhere, trigger new[j]): reads of the new row then reach the old row
+        by plain E-matching, which measured far more reliable than waiting for the array theory's read-over-write."""
+        old = self.l_elems(P, lst)
+        new = self.fresh("row", old.sort())
+        j = z3.Const("j!row", IntS)
+        P.assume(z3.Select(new, idx) == val)
+        P.assume(z3.ForAll([j], z3.Implies(j != idx, z3.Select(new, j) == z3.Select(old, j)), patterns=[z3.Select(new, j)]))
+        self.l_set_elems(P, lst, new)
 
     def l_set_elems(self, P, lst, newarr):
         key = "list.elems.%s" % self.ekey(lst.ekind)
@@ -1253,9 +1276,22 @@ class Engine(object):
             jv = z3.Const("j!map", IntS)
             fr2 = self.new_frame(P, {pname: self.l_get(pre, L, jv), "result": self.l_get(P, R, jv)})
             body = []
+
+            def mentions(t, v, seen):
+                if t.get_id() in seen:
+                    return False
+                seen.add(t.get_id())
+                if t.get_id() == v.get_id():
+                    return True
+                return any(mentions(c, v, seen) for c in t.children())
+
             for (nm, src) in self.named(con.get("ensures", [])):
                 res = self.ev(self.parse(src), P, Ctx(f.mod, (fr2,), True, f.qual))
-                body.append(self.truth(res[0][1], P))
+                t = self.truth(res[0][1], P)
+                if mentions(t, jv, set()):
+                    body.append(t)
+                else:
+                    P.assume(z3.Implies(n > 0, t))   # a frame clause: independent of the element, holds once for the whole map
             P.old = saved_old
             rj = z3.Select(self.l_elems(P, R), jv)
             P.assume(z3.ForAll([jv], z3.Implies(z3.And(0 <= jv, jv < n), z3.And(*body)), patterns=[rj]))
@@ -1420,7 +1456,62 @@ class Engine(object):
             raise SpecError("quantifier body forks")
         body = self.truth(res[0][1], P)
         vs = [b.t for b in bound]
-        return [(P, Bool(z3.ForAll(vs, body) if name == "forall" else z3.Exists(vs, body)))]
+        if name == "exists":
+            return [(P, Bool(z3.Exists(vs, body)))]
+        pats = self.infer_patterns(vs, body)
+        try:
+            q = z3.ForAll(vs, body, patterns=pats) if pats else z3.ForAll(vs, body)
+        except z3.Z3Exception:
+            q = z3.ForAll(vs, body)
+        return [(P, Bool(q))]
+
+    @staticmethod
+    def infer_patterns(vs, body):
+        """Triggers for a contract quantifier: array reads A[x] whose index is exactly a bound variable (list elements,
+        heap fields of a bound reference).  Offset indices (A[x + 1]) never make good triggers, so they are not used.
+        Returns [] when no such cover of all bound variables exists (z3 then chooses)."""
+        ids = {v.get_id(): v for v in vs}
+        found = {}     # var id -> list of candidate terms
+
+        def uses(t, acc):
+            if t.get_id() in ids:
+                acc.add(t.get_id())
+            for c in t.children():
+                uses(c, acc)
+
+        seen = set()
+
+        def walk(t):
+            if t.get_id() in seen:
+                return
+            seen.add(t.get_id())
+            if z3.is_quantifier(t):
+                return
+            if z3.is_app(t) and t.decl().kind() == z3.Z3_OP_SELECT and t.num_args() == 2:
+                idx = t.arg(1)
+                if idx.get_id() in ids:
+                    acc = set()
+                    uses(t.arg(0), acc)
+                    if not acc or acc == {idx.get_id()}:
+                        base_ok = True
+                        # the array term must itself be trigger-friendly: no If/arith inside
+                        found.setdefault(idx.get_id(), []).append(t)
+            for c in t.children():
+                walk(c)
+
+        walk(body)
+        if not all(i in found for i in ids):
+            return []
+        # prefer list-element reads (nested selects on the elems arrays) over plain field reads: take up to 2 per var
+        per = []
+        for i in ids:
+            cands = sorted(found[i], key=lambda t: (-len(str(t.arg(0))), str(t)))[:2]
+            per.append(cands)
+        pats = []
+        import itertools
+        for combo in itertools.islice(itertools.product(*per), 4):
+            pats.append(combo[0] if len(combo) == 1 else z3.MultiPattern(*combo))
+        return pats
 
     def call(self, P, ctx, f, args, kwargs):
         if isinstance(f, Bound):
@@ -1629,11 +1720,12 @@ class Engine(object):
         self.havoc_heap(P, "$alloc")
         a1 = self.alloc_arr(P)
         o = z3.Const("o!al", RefS)
-        P.assume(z3.ForAll([o], z3.Implies(z3.Select(a0, o), z3.Select(a1, o)), patterns=[z3.Select(a1, o)]))
+        P.assume(z3.ForAll([o], z3.Implies(z3.Select(a0, o), z3.Select(a1, o)), patterns=[z3.Select(a1, o), z3.Select(a0, o)]))
         t0 = self.heap_array(pre, "$type", IntS)
         self.havoc_heap(P, "$type")
         t1 = self.heap_array(P, "$type", IntS)
-        P.assume(z3.ForAll([o], z3.Implies(z3.Select(a0, o), z3.Select(t1, o) == z3.Select(t0, o)), patterns=[z3.Select(t1, o)]))
+        P.assume(z3.ForAll([o], z3.Implies(z3.Select(a0, o), z3.Select(t1, o) == z3.Select(t0, o)),
+                           patterns=[z3.Select(t1, o), z3.Select(t0, o)]))
         ids = [self.type_id(c) for c in allocates]
         P.assume(z3.ForAll([o], z3.Implies(z3.And(z3.Not(z3.Select(a0, o)), z3.Select(a1, o)),
                                            z3.Or(*[z3.Select(t1, o) == i for i in ids])), patterns=[z3.Select(a1, o)]))
@@ -1714,7 +1806,16 @@ class Engine(object):
     def st_Expr(self, st, P, ctx, nl):
         if isinstance(st.value, ast.Constant):
             return [(P, ("next",))]
-        return [(p, ("next",)) for (p, _) in self.ev(st.value, P, ctx)]
+        outs = [(p, ("next",)) for (p, _) in self.ev(st.value, P, ctx)]
+        k = self._expr_ord.get(id(st))
+        if k is not None and ctx.fname == self.current and not ctx.spec:
+            key = "after_expr#%d" % k
+            cuts = list((self.contracts.get(ctx.fname) or {}).get("cuts", {}).get(key, [])) + \
+                list((self.active_case or {}).get("cuts", {}).get(key, []))
+            for (p, _) in outs:
+                for (nm, src) in cuts:
+                    self.prove_spec(p, "cut.expr%d.%s" % (k, nm), src, ctx.asspec(), "assert")
+        return outs
 
     def st_Return(self, st, P, ctx, nl):
         if st.value is None:
@@ -1773,6 +1874,14 @@ class Engine(object):
                 # contract text as <name>__<k> (no program value depends on it)
                 for q in ps:
                     self.assign_name(q, ctx, "%s__%d" % (st.targets[0].id, k), v, ())
+                # cut-point assertions attached to this assignment site by the contract (proved, then assumed)
+                if ctx.fname == self.current:
+                    key = "after_assign:%s#%d" % (st.targets[0].id, k)
+                    cuts = list((self.contracts.get(ctx.fname) or {}).get("cuts", {}).get(key, [])) + \
+                        list((self.active_case or {}).get("cuts", {}).get(key, []))
+                    for q in ps:
+                        for (nm, src) in cuts:
+                            self.prove_spec(q, "cut.%s.%s" % (key.split(":")[1], nm), src, ctx.asspec(), "assert")
             out.extend((q, ("next",)) for q in ps)
         return out
 
@@ -1875,7 +1984,7 @@ class Engine(object):
             n = self.cint(k)
             idx = ln + n if (n is not None and n < 0) else k.t
             self.oblige(P, "safe.index#%d" % self.site(), z3.And(idx >= 0, idx < ln), "safe")
-            self.l_set_elems(P, o, z3.Store(self.l_elems(P, o), idx, self.unwrap(v, o.ekind)))
+            self.l_store(P, o, idx, self.unwrap(v, o.ekind))
             return [P]
         raise Unsupported("item store on %r" % (o,))
 
@@ -1889,6 +1998,7 @@ class Engine(object):
     # ------------------------------------------------------------------ loops
     _loop_ord = {}
     _assign_ord = {}
+    _expr_ord = {}
 
     def loop_ordinal(self, st):
         """static ordinal of a loop statement: its pre-order position among the loops of the enclosing function
@@ -1907,6 +2017,7 @@ class Engine(object):
         count = [0]
 
         acount = {}
+        ecount = [0]
 
         def walk(stmts):
             for st in stmts:
@@ -1916,6 +2027,9 @@ class Engine(object):
                     nm = st.targets[0].id
                     self._assign_ord[id(st)] = acount.get(nm, 0)
                     acount[nm] = acount.get(nm, 0) + 1
+                if isinstance(st, ast.Expr) and not isinstance(st.value, ast.Constant):
+                    self._expr_ord[id(st)] = ecount[0]
+                    ecount[0] += 1
                 if isinstance(st, (ast.For, ast.While)):
                     self._loop_ord[id(st)] = count[0]
                     count[0] += 1
